@@ -13,13 +13,14 @@ Model: `LokiModel/C04/Model.lean` (`JoinableStringList` and `Stringifier.format_
   line of `str(list)` is shorter than the width, or it is `cont[1] + one single chunk (+ head of cont[0])`.
 * `C04_width_ok` — the positive form: if no line consisting of `cont[1]` and one chunk is too long, every line fits.
 * `C04_str_item` — what `_add_item_to_line` does with a string item (the three cases), for every fuel.
-* `C04_tokens_full` / `C04_tokens_full_false` / `C04_tokens_partial` — chunk boundaries and character literals.
+* `C04_chunk_bounds_outside_literals`, `C04_tokens` — chunk boundaries and character literals (full since the fix).
+* `C04_unwrap_id_partial` — removing the continuation markers, lists of strings.
 -/
 namespace LokiModel.C04
 
 /-- the regular expressions the scanners `chunks` / `splitSep` were written against are the ones in the code -/
 theorem C04_patterns_pinned :
-    Generated.quotedPattern = "(?:\\'.*?\\')|(?:\".*?\")" ∧ Generated.chunkSepPattern = "(\\s|\\)(?!%)|\\n)" := by
+    Generated.quotedPattern = "(?:'(?:[^'\\n]|'')*')|(?:\"(?:[^\"\\n]|\"\")*\")" ∧ Generated.chunkSepPattern = "(\\s|\\)(?!%)|\\n)" := by
   decide
 
 /-- the free-form Fortran line width is what the Fortran styles use -/
@@ -116,47 +117,34 @@ example : ∃ cfg, mkCfg 132 " &\n  & ".toList = .ok cfg ∧ cfg.c0 = " &".toLis
 /-- a string whose character literals are all closed, on one line -/
 def WellQuoted (s : Str) : Prop := litState none s = none ∧ '\n' ∉ s
 
-/-- **known class `doubled-quote-split`, at chunk level**: two consecutive chunks of `s` meet between two equal
-quote characters (the quoted-string pattern `'.*?'` ends a match at the first of the two quotes of a doubled quote
-and starts the next match at the second) -/
-def knownDQchunks (s : Str) : Bool := anyAdj dqPair (chunks s)
+/-- two consecutive chunks of `s` meet between two equal quote characters (the former known class
+`doubled-quote-split`: before the `fix:` commit the pattern `'.*?'` ended a match at the first quote of a doubled quote
+and started the next match at the second) -/
+def dqChunks (s : Str) : Bool := anyAdj dqPair (chunks s)
 
 /-- **every chunk boundary lies outside the character literals** (Fortran reading of the quotes: `litState`), for
-every well-quoted string: the wrapper never breaks at a blank or `)` that is inside a literal, nor inside a quoted
-piece.  What remains is the boundary *between* two quoted pieces: see `C04_tokens_full_false`. -/
+every well-quoted string: the wrapper never breaks at a blank or `)` that is inside a literal, nor inside a literal. -/
 theorem C04_chunk_bounds_outside_literals (s : Str) (h : WellQuoted s) : boundsOut none (chunks s) :=
-  chunksAux_bounds s none [] h.2 ⟨by simp, h.1⟩
+  (chunksAux_ok s [] none h.2 (by simp) h.1 (by simp)).bounds
 
-/-- the full token statement at chunk level: every chunk boundary of a well-quoted string is a place where a
-free-form continuation may be inserted without changing the tokens — it is outside the literals *and* it does not
-separate the two quotes of a doubled quote (which Fortran reads as one quote inside the literal) -/
-def C04_tokens_full : Prop :=
-  ∀ s, WellQuoted s → boundsOut none (chunks s) ∧ knownDQchunks s = false
+/-- **token statement at chunk level (full strength since the `fix:` commit)**: for every well-quoted string every
+chunk boundary is outside the character literals *and* no boundary separates the two quotes of a doubled quote — a
+character literal, doubled quotes included, is one chunk; so a free-form continuation inserted at a chunk boundary never
+falls inside a literal.  Still missing for the token statement of C04 as a whole (checked by the correspondence and
+the tokenizer oracle only): that a blank, a `)` or a quote next to such a boundary is a Fortran token boundary (no Lean
+lexer), and that line breaks of nested lists fall on item or chunk boundaries (for lists of strings see
+`C04_unwrap_id_partial` / `C04_str_item`). -/
+theorem C04_tokens (s : Str) (h : WellQuoted s) : boundsOut none (chunks s) ∧ dqChunks s = false :=
+  have := chunksAux_ok s [] none h.2 (by simp) h.1 (by simp)
+  ⟨this.bounds, this.nodq⟩
 
-/-- the unchanged code violates it: `'it''s'` is chunked into `'it'` and `'s'` -/
-theorem C04_tokens_full_false : ¬ C04_tokens_full := by
-  intro h
-  have := (h "'it''s'".toList ⟨by decide, by decide⟩).2
-  revert this
+/-- the former witness is now one chunk -/
+example : chunks "'it''s'".toList = ["'it''s'".toList] := by decide
+
+/-- non-vacuity: a literal with blanks, a `)`, a doubled quote and the other quote kind inside is well quoted -/
+example : WellQuoted "x = 'a b) ''\"c'".toList := ⟨by decide, by decide⟩
+example : chunks "x = 'a b) ''\"c'".toList = ["x".toList, " ".toList, "=".toList, " ".toList, [], "'a b) ''\"c'".toList] := by
   decide
-
-/-- the witness, spelled out -/
-example : chunks "'it''s'".toList = ["'it'".toList, "'s'".toList] := by decide
-
-/-- **token statement outside the known class (partial)**: for every well-quoted string that is not in the class
-`doubled-quote-split`, all chunk boundaries are outside the literals and none separates a doubled quote.
-Missing for the full token statement of C04 (checked by the correspondence and the tokenizer oracle only):
-(1) that line breaks of `str(list)` fall only on item or chunk boundaries (proved for string items: `C04_str_item`
-reduces them to `chunkPath`, whose lines are concatenations of whole chunks, but the layout lemma is not stated here),
-(2) that a blank, a `)` or a quote next to a boundary outside the literals is a Fortran token boundary (no Lean lexer). -/
-theorem C04_tokens_partial (s : Str) (h : WellQuoted s) (hk : knownDQchunks s = false) :
-    boundsOut none (chunks s) ∧ knownDQchunks s = false :=
-  ⟨C04_chunk_bounds_outside_literals s h, hk⟩
-
-/-- non-vacuity: a literal with blanks, a `)` and the other quote kind inside is well quoted, outside the class,
-and is one chunk -/
-example : WellQuoted "x = 'a b) \"c'".toList ∧ knownDQchunks "x = 'a b) \"c'".toList = false :=
-  ⟨⟨by decide, by decide⟩, by decide⟩
 
 /-! ## string items -/
 
@@ -169,7 +157,7 @@ theorem C04_str_item (n : Nat) (cfg : Cfg) (line t : Str) (r : Str × List Str)
 /-- and it does terminate with two units of fuel -/
 theorem C04_str_item_terminates (n : Nat) (cfg : Cfg) (line t : Str) :
     addItem (n + 2) cfg line (.str t) = .ok (addStrItem cfg line t) := by
-  simp only [addItem, strItem, trySplit, itemStr, bind, Except.bind, pure, Except.pure]
+  simp only [addItem, strItem, trySplit, flatItem, bind, Except.bind, pure, Except.pure]
   unfold addStrItem
   split
   · rfl
@@ -181,8 +169,8 @@ theorem C04_str_item_terminates (n : Nat) (cfg : Cfg) (line t : Str) :
 continuation and fuel with which the model terminates, `str(list)` is the text `flatContent sep items` (the non-empty
 items, each followed by `sep` unless it is the last entry) cut into pieces `ps` that are joined by `cont[0] ++ cont[1]`
 (`joinR`, pieces listed last first): `ps.flatten` is exactly the text — no character, not even a blank, is added or
-dropped at a break.  Missing: nested lists (for which the statement is false: known classes `nested-empty-item`,
-`nested-rewrap`), and that the cuts are chunk/item boundaries. -/
+dropped at a break.  Missing: nested lists (not proved; since the `_flat` fix no counterexample is known, the oracle checks the
+identity on every generated tree), and that the cuts are chunk/item boundaries. -/
 theorem C04_unwrap_id_partial (n : Nat) (cfg : Cfg) (ts : List Str) (sep : Str) (b : Bool) (s : Str)
     (h : render n cfg (.jsl (ts.map Item.str) sep b) = .ok s) :
     ∃ rps : List Str, rps ≠ [] ∧ joinR cfg rps = s ∧ rps.reverse.flatten = flatContent sep ts := by
@@ -209,21 +197,13 @@ example : render 100 ⟨14, " &\n".toList, " & ".toList⟩
     (Item.jsl (["aaaa".toList, "bbbb".toList, "cccc".toList].map Item.str) ", ".toList true)
     = .ok "aaaa,  &\n & bbbb,  &\n & cccc".toList := by rfl
 
-/-! ## `str()` can raise -/
+/-! ## `str()` no longer raises on the former crash witness -/
 
-/-- **known class `split-none-crash`**: the inputs on which the model of `str(list)` ends in `Err.attribute`
-(`_add_item_to_line` asks `item._to_str(line, stop_on_continuation=True)` for the remaining items and receives `None`
-because nothing was wrapped — a first over-long chunk placed on a fresh continuation line followed only by empty items —
-and then evaluates `new_item.items`) -/
-def knownCrash (fuel : Nat) (cfg : Cfg) (item : Item) : Bool :=
-  match render fuel cfg item with
-  | .error .attribute => true
-  | _ => false
-
-/-- the class is inhabited: a nested list `['a', 'x'*40, '']` with separator `','` at width 20 makes `str()` raise -/
-theorem C04_str_raises_witness :
+/-- the witness of the former class `split-none-crash` (a nested list `['a', 'x'*40, '']` with separator `','` at
+width 20) now prints: the over-long chunk stays alone on its continuation line -/
+theorem C04_former_crash_witness :
     render 100 ⟨20, " &\n".toList, " & ".toList⟩
       (Item.jsl [Item.jsl [.str "a".toList, .str (List.replicate 40 'x'), .str []] ",".toList true] [] true)
-      = .error .attribute := by rfl
+      = .ok ("a, &\n & ".toList ++ List.replicate 40 'x' ++ [',']) := by rfl
 
 end LokiModel.C04
